@@ -54,6 +54,7 @@ pub struct Ctl {
     clock: AtomicU64,  // 0 = not overridden
     params: Mutex<HashMap<String, u64>>,
     pub watchdog: Duration,
+    pub record_sm: std::sync::atomic::AtomicBool,
 }
 
 impl Ctl {
@@ -63,6 +64,7 @@ impl Ctl {
             sched: Mutex::new(SchedInner::default()),
             cv: Condvar::new(),
             crash: Mutex::new(None),
+            record_sm: std::sync::atomic::AtomicBool::new(false),
             clock: AtomicU64::new(0),
             params: Mutex::new(HashMap::new()),
             watchdog: Duration::from_secs(10),
@@ -349,6 +351,10 @@ impl Future for GateFut<'_> {
 
 impl Hooks for Ctl {
     fn event(&self, seq: u64, name: &str, fields: &str) {
+        // ShardFileManager events (Sm*) are recorded only by the driver that validates them against ShardManager.tla
+        if name.starts_with("Sm") && !self.record_sm.load(Ordering::Relaxed) {
+            return;
+        }
         let actor = current_actor();
         let line = if fields.is_empty() {
             format!("{{\"ev\":\"{}\",\"actor\":\"{}\"}}", name, actor)
